@@ -343,9 +343,12 @@ impl MrtInRunner {
             );
             let mut ingress_map = Vec::with_capacity(peer_index_table.len());
             for peer_entry in &peer_index_table[..] {
-                let id = ingresses.register();
-                ingresses.update_info(
-                    id,
+                // A peer this unit already knows (from an earlier dump, an
+                // earlier snapshot of the same collector, or its BGP4MP
+                // messages) keeps its ingress id, like in process_message:
+                // registering it again would leave one peer with two ids, of
+                // which a state change withdraws only one.
+                let id = ingresses.find_or_register_peer(
                     IngressInfo::new()
                         .with_parent(parent_id)
                         .with_remote_addr(peer_entry.addr)
